@@ -11,7 +11,15 @@ import re
 from typing import Callable, List, Optional
 
 from .errors import JSSyntaxError, JSTypeError
-from .values import NULL, JSArray, JSObject, JSValue, js_typeof, to_string
+from .values import (
+    NULL,
+    JSArray,
+    JSObject,
+    JSValue,
+    js_typeof,
+    normalize_number,
+    to_string,
+)
 
 _WHITESPACE = re.compile(r"[ \t\n\r]*")
 _NUMBER = re.compile(r"-?(?:0|[1-9][0-9]*)(\.[0-9]+)?([eE][+-]?[0-9]+)?")
@@ -237,6 +245,8 @@ class _JSONSerializer:
         if isinstance(value, str):
             return quote_json_string(value)
         if isinstance(value, (int, float)):
+            # (a host integer too large for a double is an infinity)
+            value = normalize_number(value)
             return to_string(value) if math.isfinite(value) else "null"
         if isinstance(value, JSObject) and js_typeof(value) == "object":
             if any(entry is value for entry in self.stack):
